@@ -59,6 +59,27 @@ def search(ctx, N):
                     if ctx.violation('layout:%s' % lname.split()[0], 'Derivative(%s, n=%d, order=%d, method=%r): a %s array x with the same elements gives a different result (max difference %.3g)' % (
                             fname, n, order, method, lname, float(np.max(np.abs(np.asarray(vv) - np.asarray(v)))) if np.shape(vv) == tuple(shape) else float('nan')), dict(desc, layout=lname)):
                         return
+        # the same elements in the other containers / element types a caller may use: nested list, tuple, 0-d array for a scalar, and -- for
+        # whole-number elements -- an integer-typed array: same shape, same bits
+        if k % 3 == 0:
+            variants = [('nested list', x.tolist())]
+            if len(shape) == 1:
+                variants.append(('tuple', tuple(float(t) for t in x)))
+            xi = np.round(x * 2.0)
+            variants_int = [('int64 array of whole numbers', xi.astype(np.int64)), ('list of Python ints', xi.astype(np.int64).tolist())]
+            try:
+                vi, _ = d(xi)
+                for vname, xv in variants + variants_int:
+                    ref = vi if (vname, xv) in [(a_, b_) for a_, b_ in variants_int] else v
+                    vv, _ = d(xv)
+                    ctx.count(1, ('search', 'container', vname))
+                    if np.shape(vv) != tuple(shape) or hexes(vv) != hexes(ref):
+                        if ctx.violation('container:%s' % vname.split()[0], 'Derivative(%s, n=%d, order=%d, method=%r): x given as a %s gives a different result than the float array with the same elements' % (
+                                fname, n, order, method, vname), dict(desc, container=vname, x_given=repr(xv)[:300])):
+                            return
+            except Exception as ex:   # noqa
+                if ctx.violation('raises:container', 'Derivative(%s, n=%d, method=%r) raises %r for x given as a list / tuple / integer array' % (fname, n, method, ex), desc):
+                    return
         pos = tuple(int(rng.integers(0, s)) for s in shape)
         x2 = rand_x(rng, shape)
         x2[pos] = x[pos]
